@@ -19,9 +19,13 @@ ID = 'C20'
 API = {'parse', 'Infix', 'Prefix', 'Postfix', 'ParsedObject', 'ParseError', 'PartialParseError', 'InputError',
        'ParsingRule', 'visit', 'traverse', 'transform'}
 # reserved words of the description language itself (not identifiers a user can choose)
-LANGUAGE = {'class', 'let', 'in', 'where', 'between', 'ignore', 'ignored', 'override', 'overrides', 'grammar',
-            'extends', 'requires', 'pass', 'super', 'start', 'Start', 'left', 'right', 'infix', 'prefix', 'postfix',
-            'mixfix', 'True', 'False', 'None'}
+# words with a meaning in the description language; Python keywords among them are excluded by the
+# statement itself, the others are ordinary identifiers and are in the pool (class K6 when they fail)
+LANGUAGE = {'let', 'where', 'between', 'ignore', 'ignored', 'override', 'overrides', 'grammar',
+            'extends', 'requires', 'super', 'left', 'right', 'infix', 'prefix', 'postfix', 'mixfix'}
+# `start` / `Start` name the entry point: renaming something else to it changes which rule is the
+# start rule, which is the documented meaning of that name, not a collision
+EXCLUDED = {'start', 'Start'}
 
 TEMP_BASES = ['value', 'end', 'match', 'matcher', 'item', 'staging', 'checkpoint', 'backtrack', 'farthest_pos',
               'farthest_err', 'arg', 'func', 'start_pos', 'has_result', 'farthest_result', 'farthest_position',
@@ -57,11 +61,21 @@ def classify(name, role, ex_attrs):
         return 'K1-generated-temporary'
     if name in constructor_names(ex_attrs) and role in ('template', 'class-template'):
         return 'K3-expression-constructor'
-    if hasattr(builtins, name):
+    if hasattr(builtins, name) and name not in LANGUAGE:
         return 'K2-python-builtin'
     if K5.match(name):
         return 'K5-keyword-prefix'
+    if name in LANGUAGE:
+        return 'K6-language-word'
     return 'none'
+
+
+GLOBAL_ROLES = ('rule', 'class', 'template', 'class-template', 'ignore-rule')
+
+
+def scope_of(role):
+    """Where the user name lives in the emitted module: a module global or a function local."""
+    return 'global' if role in GLOBAL_ROLES else 'local'
 
 
 def hostile_pool(ex_attrs):
@@ -82,9 +96,10 @@ def hostile_pool(ex_attrs):
     pool += sorted(n for n in ex_attrs if n not in ('class_',))
     pool += ['match', 'case', 'type', 'letter', 'lettuce', 'Nonesuch', 'Truelove', 'Falsetto', 'whereabouts', 'inner',
              'classy', 'betweenx', 'ignoreme', 'passage', 'requiresx', 'overridex', 'grammarx', 'extendsx', 'superb']
+    pool += sorted(LANGUAGE)
     out = []
     for n in pool:
-        if n in out or n.startswith('_') or keyword.iskeyword(n) or n in API or n in LANGUAGE:
+        if n in out or n.startswith('_') or keyword.iskeyword(n) or n in API or n in EXCLUDED:
             continue
         if not n.isidentifier():
             continue
@@ -266,7 +281,10 @@ def run_renaming(rec, tag, G, base, mp, roles, ex_attrs, regime, inputs):
     worst = [c for c in classes if c[1] != 'none']
     if worst:
         role, klass, name = worst[0]
-        sigp = '%s:%s:%s:' % (klass, role, name)
+        # mechanism class, where the name lives, and the name itself: the known-findings file lists
+        # exactly the (class, scope, name) triples that fail on the pinned tree, so that a *new*
+        # collision of the same class (another name, or the same name in the other scope) is reported
+        sigp = '%s:%s:%s:' % (klass, scope_of(role), name)
     else:
         sigp = 'none:%s:' % ('+'.join(sorted({c[0] for c in classes})))
     case = dict(kind='rename', template=tag, mapping=mp, regime=regime, descs=[d2], grammars_repr=repr([G2]))
@@ -307,8 +325,8 @@ def plan(tier, seed):
              'inputs and its results exercised with visit / traverse / transform / == / hash / repr / '
              '_replace.  One evaluation = one compiled renaming or one compared call.  Non-trivial = distinct '
              'renamings compiled.' % 230,
-        assumptions=['names equal to reserved words of the description language (class, let, in, where, between, '
-                     'ignore, ... start) are not user identifiers and are not in the pool',
+        assumptions=['start / Start are not in the pool (renaming to them changes the entry point by definition); '
+                     'words of the description language that are not Python keywords are in the pool',
                      'known-finding classes are decided by the hostile name and the role alone (classify())'],
     )
 
